@@ -80,11 +80,12 @@ KINDS = {"pyexc": '@s = int(#a)', "argtype": '@s = add(#a, 1)', "rule": '@s = su
 
 
 def run_impl(job):
-    kind, pol, vm, offending, fname = job
+    kind, pol, vm, offending, fname = job[:5]
+    zero = len(job) > 5 and job[5]        # a file without a header row, scanned from line 0, cells addressed by index
     from csvpath import CsvPath
     from csvpath.util.printer import TestPrinter
-    rows = [["a", "b", "n"]]
-    for i in range(1, 5):
+    rows = [] if zero else [["a", "b", "n"]]
+    for i in range(0 if zero else 1, 5):
         rows.append(["zz", "y", "-1"] if i in offending else [str(i), "x", "1"])
     if kind == "lasts":
         rows.append([])
@@ -92,7 +93,8 @@ def run_impl(job):
     out = {"exc": None}
     try:
         t = vm_text(vm)
-        text = (f"~{t}~ " if t else "") + f'${fname}[1*][ push("seen", line_number()) {KINDS[kind]} ]'
+        comp = KINDS[kind].replace("#a", "#0").replace("#b", "#1").replace("#n", "#2") if zero else KINDS[kind]
+        text = (f"~{t}~ " if t else "") + f'${fname}[{"*" if zero else "1*"}][ push("seen", line_number()) {comp} ]'
         out["text"] = text
         with Quiet():
             c = CsvPath()
@@ -116,28 +118,29 @@ def run_impl(job):
     return out
 
 
-def expected(kind, pol, vm, offending):
+def expected(kind, pol, vm, offending, zero=False):
     """the property's statement, for these program shapes"""
     R, S, F, P, C = eff(vm, pol, "raise"), eff(vm, pol, "stop"), eff(vm, pol, "fail"), eff(vm, pol, "print"), "collect" in pol
+    lo = 0 if zero else 1
     if kind == "lasts":
         # the only error is on the frozen extra evaluation of the blank final record (line 5)
-        return {"exc": "MatchException" if R else None, "lines": None if R else ["1", "2", "3", "4"],
-                "error_lines": [5] if C else [], "valid": not F, "printed": P, "seen": [1, 2, 3, 4]}
+        return {"exc": "MatchException" if R else None, "lines": None if R else [str(i) for i in range(lo, 5)],
+                "error_lines": [5] if C else [], "valid": not F, "printed": P, "seen": list(range(lo, 5))}
     first = min(offending)
-    upto = list(range(1, first + 1))
+    upto = list(range(lo, first + 1))
     if R:
         return {"exc": "MatchException", "lines": None, "error_lines": [first] if C else [], "valid": not F, "printed": P, "seen": upto}
     if S:
         return {"exc": None, "lines": [str(i) for i in upto if i not in offending], "error_lines": [first] if C else [], "valid": not F, "printed": P, "seen": upto}
-    return {"exc": None, "lines": [str(i) for i in range(1, 5) if i not in offending], "error_lines": sorted(offending) if C else [], "valid": not F, "printed": P,
-            "seen": [1, 2, 3, 4]}
+    return {"exc": None, "lines": [str(i) for i in range(lo, 5) if i not in offending], "error_lines": sorted(offending) if C else [], "valid": not F, "printed": P,
+            "seen": list(range(lo, 5))}
 
 
 _expected = expected
 
 
-def expected(kind, pol, vm, offending):  # noqa: F811
-    e = _expected(kind, pol, vm, offending)
+def expected(kind, pol, vm, offending, zero=False):  # noqa: F811
+    e = _expected(kind, pol, vm, offending, zero)
     if kind == "skipafter" and e["lines"] is not None:
         e["lines"] = []          # a skip() after the offending component: no line matches; the error is handled all the same
     return e
@@ -200,18 +203,28 @@ def run(ctx):
                     rjobs.append((kind, pol, vm, off))
     if quick:
         rjobs = [j for j in rjobs if j[0] != "lasts" or rng.random() < 0.5]
-    rjobs = [j + (f"c05_{i}.csv",) for i, j in enumerate(rjobs)]
+    # the same over a file without a header row scanned from line 0 (an error on line 0 is an error like any other)
+    OFF0 = [{0}, {0, 2}, {3}, {0, 1, 2, 3, 4}]
+    zjobs = []
+    for kind in KINDS:
+        for pol in subsets():
+            for vm in (RVMS[:2] if quick else RVMS):
+                for off in ([rng.choice(OFF0)] if quick else OFF0):
+                    zjobs.append((kind, pol, vm, set() if kind == "lasts" else off))
+    if quick:
+        zjobs = [j for j in zjobs if rng.random() < 0.5]
+    rjobs = [j + (f"c05_{i}.csv", False) for i, j in enumerate(rjobs)] + [j + (f"c05z_{i}.csv", True) for i, j in enumerate(zjobs)]
     rres = pmap(ctx, run_impl, rjobs, chunksize=16)
     rfail = []
     for i, (j, o) in enumerate(zip(rjobs, rres)):
-        why = judge(o, expected(j[0], j[1], j[2], j[3]))
+        why = judge(o, expected(j[0], j[1], j[2], j[3], j[5]))
         if why:
             rfail.append((i, why))
 
     def rcase(i, why=None):
-        kind, pol, vm, off, _ = rjobs[i]
+        kind, pol, vm, off = rjobs[i][:4]
         return {"level": "run", "csvpath": rres[i].get("text"), "error_kind": kind, "policy": list(pol), "validation_mode": vm_text(vm), "offending_lines": sorted(off),
-                "impl": rres[i], "expected": expected(kind, pol, vm, off), "violated_clause": why}
+                "impl": rres[i], "expected": expected(kind, pol, vm, off, rjobs[i][5]), "headerless_from_line_0": rjobs[i][5], "violated_clause": why}
     quiet_fail = [(i, w) for i, w in rfail if "quiet" in rjobs[i][1] and rres[i]["exc"] == "AttributeError"]
     lasts_fail = [(i, w) for i, w in rfail if rjobs[i][0] == "lasts" and (i, w) not in quiet_fail]
     other = [(i, w) for i, w in rfail if (i, w) not in quiet_fail and (i, w) not in lasts_fail]
@@ -242,7 +255,7 @@ def run(ctx):
         "evaluations": len(kcases) + len(rjobs), "distinct_nontrivial": len({(j[0], j[1], vm_text(j[2]), tuple(sorted(j[3]))) for j, o in zip(rjobs, rres) if o.get("error_lines") or o["exc"]}),
         "rule": "handler: all 64 policies x all 81 validation-mode comments (raise/print/stop/fail each absent, set, negated) x prior (valid, stopped) states (quick: 1, thorough: 4), real "
                 "ErrorHandler.handle_error on a parsed CsvPath; runs: 7 error kinds (Python exception, argument type, function rule, right of '->', nested, last() on a blank final record, error followed by skip() on the same line) "
-                "x 64 policies x 5 validation modes x offending-line sets {first, second, last, all, middle two} (quick: one set each), real collect() with a TestPrinter. Non-trivial = "
+                "x 64 policies x 5 validation modes x offending-line sets {first, second, last, all, middle two} (quick: one set each), and again over a file without a header row scanned from line 0 with offending sets {0}, {0,2}, {3}, all, real collect() with a TestPrinter. Non-trivial = "
                 "distinct run in which an error was recorded or raised.",
         "samples": [kcase(0), rcase(len(rjobs) // 3)],
         "handler_calls": len(kcases), "runs": len(rjobs), "run_failures": len(rfail), "handler_spec_failures": len(kbad["c05k_spec"]),
@@ -261,7 +274,7 @@ def replay(ctx, payload):
             part = part.strip()
             if part:
                 vm[part.replace("no-", "")] = not part.startswith("no-")
-        o = run_impl((c["error_kind"], tuple(c["policy"]), vm, set(c["offending_lines"]), "replay_c05.csv"))
+        o = run_impl((c["error_kind"], tuple(c["policy"]), vm, set(c["offending_lines"]), "replay_c05.csv", bool(c.get("headerless_from_line_0"))))
         print("impl now:", o)
         return 0 if judge(o, c["expected"]) is None else 1
     return 0
